@@ -95,6 +95,12 @@ func (k *Check) Fn(name string) *ssa.Function {
 // the starts (entry when nil) once the cuts are removed.  minTargets is the
 // confirmed floor for the number of targets.
 func (k *Check) OnlyAfter(rule string, fn *ssa.Function, what string, targets *Set, minTargets int, cuts *Set, starts ...Point) bool {
+	return k.OnlyAfterF(rule, fn, what, targets, minTargets, cuts, nil, starts...)
+}
+
+// OnlyAfterF is OnlyAfter with a target filter evaluated against the facts of the path that reaches the
+// target (see ReachFactsF): a target for which accept returns false on a path is not a hit on that path.
+func (k *Check) OnlyAfterF(rule string, fn *ssa.Function, what string, targets *Set, minTargets int, cuts *Set, accept func(ssa.Instruction, FactQuery) bool, starts ...Point) bool {
 	if fn == nil {
 		k.Unknown(rule, "?#"+what, what, "anchor function unresolved")
 		return false
@@ -107,7 +113,7 @@ func (k *Check) OnlyAfter(rule string, fn *ssa.Function, what string, targets *S
 	}
 	if cuts.Len() == 0 && minTargets > 0 {
 		// no instance of the required preceding operation at all
-		hits := ReachFacts(fn, starts, targets, cuts)
+		hits := ReachFactsF(fn, starts, targets, cuts, accept)
 		if len(hits) > 0 {
 			h := hits[0]
 			k.add(&Obl{Rule: rule, Construct: construct, Desc: what, Pos: k.hitPos(h), Why: "the required preceding operation does not occur in this function (or its error is dropped)", Path: BlockPath(k.C, fn, h.Path), Sites: targets.Len(), st: Violated})
@@ -120,7 +126,12 @@ func (k *Check) OnlyAfter(rule string, fn *ssa.Function, what string, targets *S
 	}
 	// correlated-branch aware reachability: prunes only paths that test the same SSA value twice with
 	// contradictory outcomes or branch on a boolean phi against the constant it carries on that path
-	hits := ReachFacts(fn, st, targets, cuts)
+	trunc := ReachTruncated
+	hits := ReachFactsF(fn, st, targets, cuts, accept)
+	if len(hits) == 0 && ReachTruncated != trunc {
+		k.Unknown(rule, construct, what, "path search abandoned at the state cap: not decided")
+		return false
+	}
 	if len(hits) == 0 {
 		k.add(&Obl{Rule: rule, Construct: construct, Desc: what, Sites: targets.Len() + cuts.Len(), st: Discharged})
 		return true
